@@ -176,7 +176,7 @@ def one_case(ctx, r, desc):
                         b.lines = [b.lines[0].replace("= 0", "= 1") if "= 0" in b.lines[0] else b.lines[0] + " "]
                         b.how = "shared-char"
                     else:
-                        how = r.choice(["insert", "insert", "delete", "replace"]) if b.lines else "insert"
+                        how = r.choice(["insert", "insert", "delete", "replace", "blank"]) if b.lines else "insert"
                         w = r.choice(scenario.WORDS)
                         if dict(b.attrs).get("keep-sorted-format") == "numeric":
                             w = str(r.choice([0, 1, 4, 7, 11, 2.5]))     # keep numeric blocks well-formed
@@ -184,6 +184,13 @@ def one_case(ctx, r, desc):
                             b.lines.insert(r.randint(0, len(b.lines)), w)
                         elif how == "delete":
                             del b.lines[r.randrange(len(b.lines))]
+                        elif how == "blank":
+                            # a content line replaced 1:1 by an empty line (git: `-text` / `+`)
+                            ks = [k for k in range(len(b.lines)) if b.lines[k].strip()]
+                            if ks:
+                                b.lines[r.choice(ks)] = ""
+                            else:
+                                b.lines.insert(0, w)
                         else:
                             k = r.randrange(len(b.lines))
                             numeric = dict(b.attrs).get("keep-sorted-format") == "numeric"
